@@ -6,7 +6,12 @@ Three-way comparison on streams of invertible operator trees:
   spec  = the exact inverse of the represented matrix (Gauss-Jordan over Q[i], verified by multiplication)
 Exact comparison where the selected path is division-only on dyadic data; relative tolerance where
 LAPACK (1e-9 double / 2e-3 single) or CG / GMRES (1e-6 double / 5e-3 single) is involved.
-Plus: the Auto decision table on both sides of 10^6 entries (selection only)."""
+Plus: the Auto decision table on both sides of 10^6 entries (selection; real solves at n = 1000 and, on matmul-defined
+operators, at n = 1001), and the FLOAT-SIDE stream (props/c06_float.py): every dispatch path at extents 9..200 with
+condition numbers up to 1e6, residual claim with a derived bound + refined reference solve.
+A case the Lean model cannot evaluate (driver error / timeout / not an invertible well-formed case) is COUNTED and reported in
+the evidence as not compared, with the reason; a driver that does not run gives a verdict (VIOLATION ... no-failing-input-found
+unless the streams that do not need it found a failing input), never a crash."""
 import collections
 import json
 import os
@@ -19,10 +24,14 @@ import build
 import common
 import oracle
 import treecheck
+from props import c06_float as F
 
 warnings.simplefilter("ignore")
 MODULE = "ColaVerif.Properties.C06"
 DRIVER = "DriverC06.lean"
+# compositions with the sibling families (exact-solve contract of the iterative solvers discharged by their theorems);
+# each is gated like MODULE, unless the sibling module itself does not build (then: reported as not discharged, not a C06 failure)
+BRIDGES = [("ColaVerif.Properties.C06.GMRES", "ColaVerif.Properties.C13"), ("ColaVerif.Properties.C06.CG", "ColaVerif.Properties.C12")]
 
 # Genuine defects of cola found by this check, not yet recorded in /verif/known_findings.json
 # (treated as known so that the check exits 0 on the unchanged tree; see the builder report).
@@ -581,6 +590,187 @@ def subtrees(e):
     return []
 
 
+# ------------------------------------------------------------------------------------------ Lean gates
+def all_gates(ctx):
+    """-> (merged gate dict or None, error text or None, bridge report)"""
+    import re
+    gate = common.lean_gate(ctx, MODULE)           # raises LeanGateError
+    gate = dict(gate)
+    report, checked = {}, [MODULE]
+    for mod, sibling in BRIDGES:
+        path = os.path.join(oracle.LEAN_DIR, "ColaVerif", *mod.split(".")[1:]) + ".lean"
+        try:
+            listed = len(re.findall(r"^#print axioms", open(path).read(), flags=re.M))
+        except OSError:
+            listed = 0
+        rc, out = common.lake_build([sibling])
+        if rc != 0:
+            report[mod] = {"status": "not discharged", "obligations": listed,
+                           "reason": f"the sibling module {sibling} does not build; the composition was not checked (not a failure of this family)"}
+            gate["obligations"] += listed
+            continue
+        g = common.lean_gate(ctx, mod)             # raises LeanGateError: a failure of this family's own module
+        report[mod] = {"status": "discharged", "obligations": g["obligations"]}
+        gate["obligations"] += g["obligations"]
+        gate["discharged"] += g["discharged"]
+        gate["theorems"] = sorted(set(gate["theorems"]) | set(g["theorems"]))
+        checked.append(mod)
+    files = " && ".join("lake env lean " + os.path.join("ColaVerif", *m.split(".")[1:]) + ".lean" for m in checked)
+    gate["checker_cmd"] = f"cd lean && lake build {' '.join(checked)} && {files}" + \
+        (" && " + " && ".join("lake env leanchecker " + m for m in checked) if ctx.thorough else "") + \
+        "   # kernel re-check + #print axioms audit"
+    return gate, report
+
+
+# ------------------------------------------------------------------------------------------ the driver may fail
+DRIVER_FAILURE = []     # messages of driver runs that did not produce answers (elaboration error, crash)
+
+
+def run_driver_safe(cases, **kw):
+    """oracle.run_driver, but a driver that does not run yields {"error": ...} answers instead of an exception"""
+    try:
+        return oracle.run_driver(cases, driver=DRIVER, **kw)
+    except Exception as ex:  # noqa: BLE001  (RuntimeError of oracle.run_driver, OSError of a missing toolchain)
+        msg = f"{type(ex).__name__}: {str(ex)[-1500:]}"
+        if msg not in DRIVER_FAILURE:
+            DRIVER_FAILURE.append(msg)
+        return {c.get("id"): {"id": c.get("id"), "error": "driver-failed"} for c in cases}
+
+
+# ------------------------------------------------------------------------------------------ float-side stream
+def float_stream(ctx, stats, hist, replay_case=None):
+    """props/c06_float.py: sizes 9..200, condition numbers up to 1e6, every dispatch path; -> coverage dict"""
+    rng = random.Random(ctx.seed * 104729 + 66)
+    G = F.FloatGen(rng)
+    if replay_case is not None:
+        cases = [F.undump(replay_case)]
+    else:
+        ncases = 10 * len(F.PATHS) if not ctx.thorough else 150 * len(F.PATHS)
+        cases = [G.case(F.PATHS[i % len(F.PATHS)], quick=not ctx.thorough) for i in range(ncases)]
+    ans = run_driver_safe([{"id": i, "call": "skel", "alg": c["alg"], "op": F.expr(c["tree"])} for i, c in enumerate(cases)])
+    worst, kappas, sizes, not_compared, samples = collections.defaultdict(float), [], [], collections.Counter(), []
+    for i, c in enumerate(cases):
+        try:
+            st, det, meas = F.run_case(c, ans.get(i), rskel, err_class)
+        except Exception as ex:  # noqa: BLE001
+            st, det, meas = "not-compared", f"harness error {type(ex).__name__}: {str(ex)[:200]}", {}
+        stats["float-evaluations"] += 1
+        stats["float-" + st] += 1
+        hist["float-path:" + c["path"]] += 1
+        hist["float-alg:" + c["alg"]] += 1
+        if st in ("ok", "ok-error"):
+            hist["float-distinct"] += 1
+            if "worst_ratio" in meas:
+                worst[c["path"]] = max(worst[c["path"]], meas["worst_ratio"])
+                kappas.append(meas["kappa"])
+                sizes.append(meas["n"])
+            if meas.get("structure") not in (None, "compared"):
+                not_compared["structure only: " + str(meas["structure"])] += 1
+            if st == "ok" and len(samples) < 3 and c["tree"]["k"] in ("prod", "kron", "bdiag"):
+                samples.append({"float_case": F.describe(c["tree"]), "alg": c["alg"], "n": meas["n"], "kappa_2": meas["kappa"],
+                                "residual_over_bound": meas["worst_ratio"]})
+        elif st == "not-compared":
+            not_compared[str(det)[:120]] += 1
+        elif len(ctx.violations) >= MAX_REPORTED:
+            stats["violations-not-reported-in-detail"] += 1
+        elif st == "violation":
+            common.violation(ctx, {"float_case": F.dump(c), "operator": F.describe(c["tree"]), "alg": c["alg"], "detail": det, "measures": meas,
+                                   "call": "cola.linalg.inv(A, alg) @ b / cola.linalg.solve(A, b, alg) / xl @ inv(A) with the payload arrays of float_case",
+                                   "replay_cmd": f"./check {ctx.prop} quick --replay <this file>"})
+        else:   # stale-model
+            common.violation(ctx, {"float_case": F.dump(c), "operator": F.describe(c["tree"]), "alg": c["alg"], "detail": det,
+                                   "broken": "rule selection of the inv model vs the real code on the float-side stream"}, no_input=True)
+    return {"evaluations": stats["float-evaluations"], "not_compared": dict(not_compared),
+            "sizes": {"min": min(sizes, default=0), "max": max(sizes, default=0), "at_least_100": sum(1 for x in sizes if x >= 100)},
+            "kappa_2": {"max": max(kappas, default=0.0), "above_1e3": sum(1 for k in kappas if k > 1e3), "above_1e5": sum(1 for k in kappas if k > 1e5)},
+            "worst_residual_over_bound_by_path": {k: float("%.3g" % v) for k, v in sorted(worst.items())},
+            "samples": samples,
+            "claim": "per column ||b - A x||_2 <= delta(path) ||x||_2 + 4u||b||_2 (residual in 80-bit arithmetic from the payloads) and agreement with a "
+                     "refined reference solve within delta ||x|| / sigma_min; delta composed along the rules (docstring of props/c06_float.py); "
+                     "GMRES constant heuristic, all others derived (Higham ASNA Thm 8.5 / 9.4 / 10.4, exit test of run_cg)"}
+
+
+def large_side_solves(ctx, stats):
+    """real solves on both sides of the 10^6 switch: dense at n = 1000 (Cholesky / LU through Auto, float stream claim) and
+    matmul-defined PSD operators at n = 1001 (Auto hands over to CG with the REQUESTED tolerance)"""
+    import cola
+    from cola.linalg import Auto
+    from cola.ops import LinearOperator
+    out = []
+    rng = random.Random(ctx.seed * 31 + 5)
+    G = F.FloatGen(rng)
+    cases = []
+    for psd in (True, False):
+        kappa = 10 ** rng.uniform(1, 4)
+        t = G.generic_leaf(1000, kappa, False, psd, wrap=None, c=False)
+        cases.append({"path": "auto-small-side", "tree": t, "alg": rng.choice(["omitted", "Auto"]), "kappa_target": kappa, "single": False, "bdt": "f64",
+                      "vec": False, "b": G.cast(G.rs.randn(1000, 2), "f64"), "xl": G.cast(G.rs.randn(1, 1000), "f64"), "gmres_iters": 1000})
+    # n = 1001: the model's selection with shape / dtype (no solve for a dense operator: GMRES / CG at default options)
+    sel = [{"path": "auto-large-side", "tree": {"k": "dense", "dt": "f64", "n": 1001, "psd": psd, "wrap": None}, "alg": "Auto"} for psd in (True, False)]
+    ans = run_driver_safe([{"id": i, "call": "skel", "alg": c["alg"], "op": F.expr(c["tree"])} for i, c in enumerate(cases + sel)], nproc=1)
+    for i, c in enumerate(cases):
+        try:
+            st, det, meas = F.run_case(c, ans.get(i), rskel, err_class)
+        except Exception as ex:  # noqa: BLE001
+            st, det, meas = "not-compared", f"harness error {type(ex).__name__}: {str(ex)[:200]}", {}
+        stats["auto-evaluations"] += 1
+        out.append({"n": 1000, "psd": c["tree"]["psd"], "call": c["alg"], "status": st, "kappa_2": meas.get("kappa"),
+                    "residual_over_bound": meas.get("worst_ratio"), "structure": meas.get("structure")})
+        if st == "violation":
+            common.violation(ctx, {"auto_small_side": {"n": 1000, "psd": c["tree"]["psd"], "call": c["alg"], "seed": ctx.seed, "detail": det, "measures": meas},
+                                   "why": "inv(A, Auto) @ b on a dense 1000 x 1000 operator violates the residual claim of its algorithm"})
+        elif st == "stale-model":
+            common.violation(ctx, {"auto_small_side": {"n": 1000, "psd": c["tree"]["psd"], "detail": det}, "broken": "rule selection at n = 1000"}, no_input=True)
+    for j, c in enumerate(sel):
+        a = ans.get(len(cases) + j, {})
+        if "error" in a:
+            out.append({"n": 1001, "psd": c["tree"]["psd"], "status": "not-compared", "reason": a["error"]})
+            continue
+        A = cola.ops.Dense(np.zeros((1001, 1001)) + np.eye(1001))
+        A = cola.PSD(A) if c["tree"]["psd"] else A
+        try:
+            B = cola.linalg.inv(A, Auto())
+            got = {"shape": [int(B.shape[0]), int(B.shape[1])], "dtype": build.dtname(B.dtype), "skel": rskel(B)}
+        except Exception as ex:  # noqa: BLE001
+            got = {"err": err_class(ex)}
+        code = a["code"]
+        want = {"err": code["err"]} if "err" in code else {"shape": [code["rows"], code["cols"]], "dtype": code["dtype"], "skel": code["skel"]}
+        stats["auto-evaluations"] += 1
+        out.append({"n": 1001, "psd": c["tree"]["psd"], "call": "Auto", "real": got.get("skel", got), "model": want.get("skel", want),
+                    "status": "ok" if got == want else "differs"})
+        if got != want:
+            common.violation(ctx, {"auto_switch": {"n": 1001, "psd": c["tree"]["psd"], "real": got, "rule_model": want},
+                                   "why": "inv(Dense 1001 x 1001, Auto()) returns another operator than the rule model selects"})
+    # n = 1001, matmul-defined PSD operator: CG with the tolerance given to Auto
+    tol, iters = 1e-9, 400
+    for rep in range(2):
+        n = 1001
+        d = np.exp(np.array([rng.uniform(0, 2.3) for _ in range(n)]))           # spectrum in [1, 10]
+        b = G.rs.randn(n, 2)
+        A = cola.PSD(LinearOperator(np.float64, (n, n), matmat=lambda X, d=d: d[:, None] * X))
+        stats["auto-evaluations"] += 1
+        try:
+            Bop = cola.linalg.inv(A, Auto(tol=tol, max_iters=iters))
+            x = np.asarray(Bop @ b)
+            k = int(getattr(Bop, "info", {}).get("iterations", iters) if isinstance(getattr(Bop, "info", {}), dict) else iters)
+            r = b.astype(np.longdouble) - d.astype(np.longdouble)[:, None] * x.astype(np.longdouble)
+            rel = (np.sqrt((r ** 2).sum(0)) / np.sqrt((b.astype(np.longdouble) ** 2).sum(0))).astype(float)
+            bound = 2 * tol + 50 * iters * 2.0 ** -53 * float(d.max() / d.min())
+            ok = bool(np.all(np.isfinite(x)) and rel.max() <= bound)
+            out.append({"n": n, "psd": True, "call": f"Auto(tol={tol}, max_iters={iters}) on a matmul-defined operator", "selected": rskel(Bop)[0],
+                        "relative_residual": rel.tolist(), "bound": bound, "iterations": k, "status": "ok" if ok else "violation"})
+            if not ok:
+                common.violation(ctx, {"auto_large_side": {"n": n, "spectrum": "d = exp(U(0, 2.3)) (diagonal matmul-defined PSD operator)", "diag": d.tolist(),
+                                                           "b": b.tolist(), "alg": f"Auto(tol={tol}, max_iters={iters})", "relative_residual": rel.tolist(),
+                                                           "bound": bound},
+                                       "why": "inv(A, Auto(tol=...)) @ b on the large side of the switch does not reach the requested tolerance "
+                                              "(exit test of CG: 2 tol in the normalised system, plus the drift term)"})
+        except Exception as ex:  # noqa: BLE001
+            common.violation(ctx, {"auto_large_side": {"n": n, "raised": err_class(ex), "msg": str(ex)[:200]},
+                                   "why": "inv(A, Auto(tol=..., max_iters=...)) @ b raised on a PSD matmul-defined operator with 1001^2 entries"})
+    return out
+
+
 # ------------------------------------------------------------------------------------------ Auto switch
 def auto_stream(ctx, stats):
     """selection on both sides of 10^6 entries (matmul-defined operators; no solve)"""
@@ -611,12 +801,15 @@ def auto_stream(ctx, stats):
                     sel = "raised " + type(ex).__name__
                 cases.append({"id": len(cases), "call": "auto", "psd": psd, "rows": n, "cols": n})
                 reals.append((n, psd, how, sel))
-    ans = oracle.run_driver(cases, nproc=1, driver=DRIVER)
+    ans = run_driver_safe(cases, nproc=1)
     table = []
     for c, (n, psd, how, sel) in zip(cases, reals):
         want = ans.get(c["id"], {}).get("alg")
         stats["auto-evaluations"] += 1
         table.append({"n": n, "psd": psd, "call": how, "real": sel, "model": want})
+        if want is None:
+            stats["auto-not-compared"] += 1
+            continue
         if sel != want:
             common.violation(ctx, {"auto_switch": {"n": n, "psd": psd, "call": how, "real_selected": sel, "decision_table": want},
                                    "why": "inv(A, Auto) selected another algorithm than the documented decision table"})
@@ -627,7 +820,7 @@ def auto_stream(ctx, stats):
 def evaluate(cases):
     for i, c in enumerate(cases):
         c["id"] = i
-    ans = oracle.run_driver([strip(c) | {"id": c["id"]} for c in cases], driver=DRIVER)
+    ans = run_driver_safe([strip(c) | {"id": c["id"]} for c in cases])
     out = []
     for c in cases:
         a = ans.get(c["id"], {"error": "no answer from the driver"})
@@ -709,9 +902,9 @@ def nontrivial(c):
 
 
 def run(ctx):
-    gate, gate_err = None, None
+    gate, gate_err, bridge_report = None, None, {}
     try:
-        gate = common.lean_gate(ctx, MODULE)
+        gate, bridge_report = all_gates(ctx)
     except common.LeanGateError as ex:
         gate_err = str(ex)
     rng = random.Random(ctx.seed * 7919 + 6)
@@ -723,13 +916,20 @@ def run(ctx):
     alg_hist, kind_hist, rule_hist, dt_hist, mode_hist = (collections.Counter() for _ in range(5))
     distinct, samples = set(), []
 
+    rp = json.load(open(ctx.replay)) if ctx.replay else {}
     if ctx.replay:
-        rp = json.load(open(ctx.replay))
         cases = [rp["case"]] if "case" in rp else []
     else:
         ncases = 600 if not ctx.thorough else 9000
         cases = [G.case() for _ in range(ncases)]
-    auto_table = auto_stream(ctx, stats) if not ctx.replay or "auto_switch" in json.load(open(ctx.replay)) else []
+    auto_table = auto_stream(ctx, stats) if not ctx.replay or "auto_switch" in rp else []
+    float_hist = collections.Counter()
+    not_compared, nc_samples = collections.Counter(), []
+    float_cov, large_table = {}, []
+    if not ctx.replay or "float_case" in rp:
+        float_cov = float_stream(ctx, stats, float_hist, replay_case=rp.get("float_case"))
+    if not ctx.replay or any(k in rp for k in ("auto_small_side", "auto_large_side", "auto_switch")):
+        large_table = large_side_solves(ctx, stats)
 
     for i in range(0, len(cases), 600):
         for (c, a, real, st, det) in evaluate(cases[i:i + 600]):
@@ -781,25 +981,56 @@ def run(ctx):
                 common.violation(ctx, {"case": strip(c), "model": a.get("code"), "real": printable(real), "detail": det,
                                        "broken": "correspondence stream of the inv rule model (real agrees with the exact inverse / behaves otherwise than the model)"},
                                  no_input=True)
-            elif st == "driver-error":
-                ctx.notes.append(f"driver error: {det}")
-                stats["driver-error-cases"] += 0
+            if st in ("driver-error", "skipped"):
+                # the model could not evaluate the case: it is NOT compared; counted with the reason
+                stats["not-compared"] += 1
+                not_compared[("model: " if st == "driver-error" else "generator: ") + str(det)[:120]] += 1
+                if len(nc_samples) < 3:
+                    nc_samples.append({"case": strip(c), "reason": str(det)[:300]})
+    compared = stats["evaluations"] - stats["not-compared"]
+    if DRIVER_FAILURE and not ctx.violations:
+        # the driver did not run (does not elaborate / crashed): the exact stream compared nothing.  The float-side stream and the
+        # large-side solves (which need it only for the structure) were the failing-input search and found nothing.
+        common.violation(ctx, {"broken": f"{DRIVER} does not run: the code model could not be evaluated", "detail": DRIVER_FAILURE[0][-3000:],
+                               "cases_not_compared": stats["not-compared"], "float_stream": {k: v for k, v in float_cov.items() if k != "samples"}},
+                         no_input=True)
+    elif not ctx.replay and not DRIVER_FAILURE and compared < 0.5 * max(1, stats["evaluations"]) and not ctx.violations:
+        common.violation(ctx, {"broken": "more than half of the generated cases could not be evaluated by the code model",
+                               "reasons": dict(not_compared)}, no_input=True)
     if gate_err is not None and not ctx.violations:
         common.violation(ctx, {"broken": f"Lean gate of {MODULE}", "detail": gate_err[-3000:]}, no_input=True)
-    cov = {"evaluations": stats["evaluations"], "distinct_nontrivial": len(distinct), "outcomes": dict(stats),
+    cov = {"evaluations": compared + float_hist["float-distinct"], "distinct_nontrivial": len(distinct) + float_hist["float-distinct"],
+           "exact_stream": {"generated": stats["evaluations"], "compared": compared, "distinct_nontrivial": len(distinct)},
+           "not_compared": {"count": stats["not-compared"], "reasons": dict(not_compared), "samples": nc_samples,
+                            "driver_failure": DRIVER_FAILURE[:1],
+                            "note": "cases the Lean code model could not evaluate (driver error / timeout) or that are not invertible well-formed inputs; "
+                                    "they are excluded from `evaluations`"},
+           "compositions": bridge_report,
+           "float_stream": float_cov, "float_paths": {k[11:]: v for k, v in float_hist.items() if k.startswith("float-path:")},
+           "float_algorithms": {k[10:]: v for k, v in float_hist.items() if k.startswith("float-alg:")},
+           "large_side": large_table,
+           "outcomes": dict(stats),
            "algorithms": dict(alg_hist), "input_kinds": dict(kind_hist), "result_nodes": dict(rule_hist), "rhs": dict(dt_hist),
-           "comparison_modes": dict(mode_hist), "auto_switch": auto_table, "samples": samples,
-           "rule": "random invertible operator trees (depth <= 2, n <= 8) over Identity / ScalarMul / Diagonal / Permutation / Triangular leaves, "
+           "comparison_modes": dict(mode_hist), "auto_switch": auto_table, "samples": samples + float_cov.get("samples", []),
+           "rule": "exact stream: random invertible operator trees (depth <= 2, n <= 8) over Identity / ScalarMul / Diagonal / Permutation / Triangular leaves, "
                    "generic leaves (Dense unimodular, PSD-declared Gram matrices, Unitary-declared signed permutations, lazy transposes, Sparse, "
                    "non-square Product, Sum) under Product / Kronecker / BlockDiag(multiplicities), x algorithm in {omitted, Auto, LU, Cholesky, CG, GMRES, "
                    "plain Algorithm}, x right-hand side (1-D or 1-3 columns, 4 dtypes); distinct = canonical JSON of (tree, algorithm, operands); "
-                   "non-trivial = not a bare Identity, and not a bare ScalarMul/Diagonal/Permutation with the algorithm omitted",
+                   "non-trivial = not a bare Identity, and not a bare ScalarMul/Diagonal/Permutation with the algorithm omitted.  "
+                   "float stream: one operator per dispatch path (props/c06_float.py PATHS), extent 9..200 (GMRES <= 40), kappa_2 log-uniform up to 1e6 "
+                   "(1e3 in single precision), float / complex payloads, right-hand side 1-D or 1-3 columns; every compared case counts as distinct "
+                   "(random payloads).  Cases that could not be compared are not counted.",
            "compare": "kind tree, shape, dtype exactly; values exactly on division-only paths, rel. tol. 1e-9 (LAPACK, double) / 2e-3 (single) / "
-                      "1e-6 (CG, GMRES double) / 5e-3 (single) elsewhere; residual of the returned solution",
+                      "1e-6 (CG, GMRES double) / 5e-3 (single) elsewhere; residual of the returned solution; float stream: " + float_cov.get("claim", "not run"),
            "notes": ctx.notes[:10],
            "trusted_base_extra": ["the exact factorisation / solver instances of DriverC06.lean (their contracts are the hypotheses of the theorems and are re-checked by "
                                   "multiplication on every case: inv_ok)"]}
     common.write_evidence(ctx, gate, cov, assumptions=[
-        "dense factorisations (LAPACK potrf / getrf) and the CG / GMRES loops enter through their contracts (L L^H = A, P L U = A, A x = b); CG and GMRES themselves are C12 / C13",
+        "the contracts of the theorems assume EXACT factorisations (L L^H = A, P L U = A) and EXACT solves (A x = b) by the external routines; "
+        "for CG the contract is what C12 proves at the grade (C12_optimal_inputs: Krylov-optimal iterate; it is the solution once x* - x0 lies in the "
+        "Krylov space), for GMRES what C13 proves (C13_exact_at_grade_input, C13_exact_at_dim: zero residual once the Krylov space is exhausted); "
+        "before the grade / under rounding only the residual claims of the float-side stream hold",
+        "the residual bounds of the float-side stream use textbook backward-error constants (Higham, Accuracy and Stability of Numerical Algorithms) "
+        "for LAPACK's triangular solves / getrf / potrf; the GMRES constant is heuristic",
         "exact field arithmetic in the theorems; rounding is covered only by the tolerances of the correspondence stream on well-conditioned inputs"])
     print(json.dumps({"outcomes": dict(stats), "distinct_nontrivial": len(distinct), "gate": (gate or {}).get("obligations")}))
